@@ -22,6 +22,7 @@ import (
 )
 
 const lpPacketOverhead = 1 + 3
+const fragmentOverhead = 1 + 3
 const pitTokenOverhead = 1 + 1 + 6
 const congestionMarkOverhead = 3 + 1 + 8
 
@@ -113,6 +114,8 @@ func (l *NDNLPLinkService) SetOptions(options NDNLPLinkServiceOptions) {
 
 func (l *NDNLPLinkService) computeHeaderOverhead() {
 	l.headerOverhead = lpPacketOverhead // LpPacket (Type + Length of up to 2^16)
+
+	l.headerOverhead += fragmentOverhead // Fragment (Type + Length of up to 2^16)
 
 	if l.options.IsFragmentationEnabled {
 		l.headerOverhead += 1 + 1 + 8 // Sequence
